@@ -61,6 +61,12 @@ def main():
                 cmd = cmd.replace("go test", "go test " + " ".join(ov), 1)
             rc0, o0 = sh("export GOFLAGS=-mod=mod GOPROXY=off; " + cmd, cwd=wt)
             rca, oa = sh(["git", "apply", os.path.join(d, "patch.diff")], cwd=wt)
+            if rca != 0:  # /repo has moved on (fix commits) since the agent's worktree was made: merge
+                rca, oa2 = sh(["git", "apply", "--3way", os.path.join(d, "patch.diff")], cwd=wt)
+                oa += oa2
+                if rca == 0:  # keep the rebased patch instead of the agent's
+                    rebased = sh(["git", "diff", "HEAD"], cwd=wt)[1]
+                    open(os.path.join(d, "patch.diff"), "w").write(rebased)
             if overlay:
                 sh(["python3", "/tmp/mut-ov/mk.py", wt])  # contract/contract.go is copied into the overlay: refresh it
             rc1, o1 = sh("export GOFLAGS=-mod=mod GOPROXY=off; " + cmd, cwd=wt)
